@@ -144,28 +144,71 @@ func (q *MustPass) Visited() []string {
 	return out
 }
 
+// retValue resolves defer-spilled results: `*t0 = v; rundefers; t = *t0; return t` yields v.
+func retValue(ret *ssa.Return, i int) ssa.Value {
+	v := ret.Results[i]
+	u, ok := v.(*ssa.UnOp)
+	if !ok || u.Op != token.MUL {
+		return v
+	}
+	al, ok := u.X.(*ssa.Alloc)
+	if !ok {
+		return v
+	}
+	instrs := ret.Block().Instrs
+	for k := len(instrs) - 1; k >= 0; k-- {
+		if st, ok := instrs[k].(*ssa.Store); ok && st.Addr == ssa.Value(al) {
+			return st.Val
+		}
+	}
+	return v
+}
+
 // acceptDemands returns (demands, accepting?) for a return.
 func acceptDemands(ret *ssa.Return, acc Accept) ([]demand, bool) {
+	if fn := ret.Parent(); fn != nil && fn.Recover != nil && fn.Recover == ret.Block() {
+		return nil, false // the recover block is not a normal exit
+	}
 	switch acc.Kind {
+	case "errnonnil":
+		if acc.Result >= len(ret.Results) {
+			return nil, false
+		}
+		return []demand{{retValue(ret, acc.Result), NonNil}}, true
 	case "any":
 		return nil, true
 	case "true":
 		if acc.Result >= len(ret.Results) {
 			return nil, false
 		}
-		return []demand{{ret.Results[acc.Result], True}}, true
+		return []demand{{retValue(ret, acc.Result), True}}, true
 	case "nilerr":
 		if acc.Result >= len(ret.Results) {
 			return nil, false
 		}
-		return []demand{{ret.Results[acc.Result], Nil}}, true
+		return []demand{{retValue(ret, acc.Result), Nil}}, true
 	case "nonnil":
 		if acc.Result >= len(ret.Results) {
 			return nil, false
 		}
-		return []demand{{ret.Results[acc.Result], NonNil}}, true
+		return []demand{{retValue(ret, acc.Result), NonNil}}, true
 	}
 	return nil, false
+}
+
+func AcceptErr(i int) Accept { return Accept{"errnonnil", i} }
+
+// MustReach: every path from fn's entry to instruction ins passes the obligation (before ins).
+func (q *MustPass) MustReach(fn *ssa.Function, ins ssa.Instruction) mpResult {
+	q.init()
+	return q.search(fn, AcceptAny(), 0, searchOpts{startAt: []*mpState{{b: ins.Block(), note: "at " + q.P.Pos(ins.Pos())}}, startInstr: ins})
+}
+
+// errorReachableFrom: can a return with a non-nil error (result index errIdx) be reached from instruction ins?
+func errorReachableFrom(P *Program, fn *ssa.Function, ins ssa.Instruction, errIdx int) string {
+	q := &MustPass{P: P}
+	q.init()
+	return forwardToAccept(q, fn, ins.Block(), nil, AcceptErr(errIdx))
 }
 
 // searchOpts tune the backward search.
